@@ -94,6 +94,24 @@ class M(Hooks):
             # list of selectors; the statement only fixes to whom the offer
             # is made - the players remaining at the all-in - so this is
             # not judged)
+            # "to each remaining player once": a player who has chosen, or
+            # who folded before the all-in, is not offered the choice - also
+            # when he is named explicitly
+            chosen = {o.player_index for o in s.operations
+                      if op_kind(o) == 'select_runout_count'}
+            folded = {o.player_index for o in s.operations
+                      if op_kind(o) == 'fold'}
+            for i in s.player_indices:
+                if i in chosen or i in folded:
+                    for cnt in (None, 2):
+                        if s.can_select_runout_count(cnt, i):
+                            self.v('offered_twice_or_to_folded_player',
+                                   'chosen' if i in chosen else 'folded',
+                                   f'can_select_runout_count({cnt}, {i}) is'
+                                   f' True although player {i} has'
+                                   f' {"already chosen" if i in chosen else "folded"}'
+                                   f' (after {len(s.operations)} operations)')
+                            return
 
 
 def budget(tier):
@@ -118,6 +136,11 @@ def strategy(tier):
                   **common),
         gen.cases(games=BOARD, profiles=(1, 2, 5), modes=('C', 'T'),
                   **common),
+        # a raked table: it is what is left after the rake that is divided
+        # evenly between the boards
+        gen.cases(games=BOARD, custom=False, profiles=(2, 5),
+                  short_bias=True, modes=('C',),
+                  **dict(common, rake=True, chips=('int', 'frac', 'dec'))),
     )
 
 
